@@ -507,11 +507,90 @@ def family_smooth_edges(ctx, r, exact, n, opaque=False):
     return []
 
 
+def family_linesearch_direct(ctx, r, exact, n, opaque=False):
+    """BacktrackingLineSearch called directly: `dir_derivative` omitted (taken from function.gradient),
+    `estimate_step=True` (the next call starts from the stored step), and the refusals (no gradient and no
+    dir_derivative; dir_derivative == 0; non-finite value at the start; NaN at a trial point).  Oracle
+    (C12.armijo_descent): a returned step satisfies the sufficient-decrease test and strictly decreases f;
+    with estimate_step every later step is the stored one times a power of tau."""
+    import odl
+    S = odl.solvers
+    kind, f, val, gradv, d = make_functional(r)
+    while gradv is None:
+        kind, f, val, gradv, d = make_functional(r)
+    x0 = sl.dy_vec(r, d, 16, 8)
+    tau, disc = r.choice([0.5, 0.25]), r.choice([0.01, 0.1])
+    est = r.random() < 0.6
+    a0 = r.choice([1.0, 4.0, 0.5])
+    ls = S.BacktrackingLineSearch(f, tau=tau, discount=disc, alpha=a0, estimate_step=est)
+    p = dict(solver='zz_linesearch_direct', opkind=kind, x0=x0, fk='estimate_step={}'.format(est),
+             gk='tau={} discount={}'.format(tau, disc), cseed=r.cseed)
+    x = np.array(x0, dtype=float)
+    prev = a0 if est else None
+    for it in range(r.randint(1, 4)):
+        g = gradv(x)
+        ascent = r.random() < 0.3
+        dvec = g.copy() if ascent else -g
+        if r.random() < 0.4:
+            dvec = dvec + 0.25 * sl.dy_vec(r, d, 8, 8)
+        dd = float(g.dot(dvec))
+        if dd == 0:
+            break
+        st, a = guarded(ls, unflat(f.domain, x), unflat(f.domain, dvec))
+        if st != 'ok':
+            ctx.err(err_kind(st))
+            ctx.hit('oracle/linesearch_direct/raised')
+            break
+        a = float(a)
+        fx, fn_ = val(x), val(x + a * dvec)
+        if not (fn_ <= fx - abs(a * dd * disc) * (1 - 1e-9) + 1e-12 * (1 + abs(fx)) and fn_ < fx):
+            viol(ctx, 'BacktrackingLineSearch returns a step without sufficient decrease f={} {}'.format(
+                kind, p['fk']), 'step {}: f(x + a d) = {!r}, f(x) = {!r}, |a dd discount| = {!r}'.format(
+                    a, fn_, fx, abs(a * dd * disc)), p, n=it)
+            break
+        if (a > 0) != (dd < 0):
+            viol(ctx, 'BacktrackingLineSearch step has the wrong sign f=' + kind,
+                 'step {} for directional derivative {}'.format(a, dd), p, n=it)
+            break
+        if est:
+            k_ = np.log(abs(a) / prev) / np.log(tau)
+            if not (abs(k_ - round(k_)) < 1e-9 and round(k_) >= 0):
+                viol(ctx, 'BacktrackingLineSearch(estimate_step=True) does not start from the stored step',
+                     'step {} after stored {} (tau={})'.format(a, prev, tau), p, n=it)
+                break
+            prev = abs(a)
+            ctx.hit('oracle/linesearch_direct/estimate_step')
+        else:
+            k_ = np.log(abs(a)) / np.log(tau)
+            if not (abs(k_ - round(k_)) < 1e-9 and round(k_) >= 0):
+                viol(ctx, 'BacktrackingLineSearch step is not a power of tau', 'step {} tau {}'.format(a, tau),
+                     p, n=it)
+                break
+        x = x + a * dvec
+        ctx.hit('oracle/linesearch_direct/' + ('ascent-direction' if ascent else 'descent-direction'))
+    # refusals
+    xe = unflat(f.domain, x0)
+    plain = S.BacktrackingLineSearch(lambda v: float(f(v)))
+    for name, fn in [('no gradient and no dir_derivative', lambda: plain(xe, xe)),
+                     ('dir_derivative == 0', lambda: ls(xe, xe, dir_derivative=0.0)),
+                     ('non-finite start value', lambda: S.BacktrackingLineSearch(lambda v: float('inf'))(
+                         xe, xe, dir_derivative=-1.0)),
+                     ('NaN at the trial point', lambda: S.BacktrackingLineSearch(
+                         lambda v: 0.0 if np.all(flat(v) == x0) else float('nan'))(xe, xe + 1.0,
+                                                                                    dir_derivative=-1.0))]:
+        st, _ = guarded(fn)
+        if 'ValueError' not in str(st):
+            viol(ctx, 'BacktrackingLineSearch does not refuse: ' + name, str(st)[:200], p)
+    ctx.hit('oracle/linesearch_direct/refusals')
+    ctx.case(('oracle', 'linesearch_direct', kind, est, tau, disc))
+    return []
+
+
 FAMILIES = {
     'smooth_descent': family_smooth_descent, 'newton_exact': family_newton_exact,
     'ref_adam': family_ref_adam, 'ref_gauss_newton': family_ref_gauss_newton,
     'ref_iternum': family_ref_iternum, 'ref_quasi_newton': family_ref_quasi_newton,
-    'smooth_edges': family_smooth_edges,
+    'smooth_edges': family_smooth_edges, 'zz_linesearch_direct': family_linesearch_direct,
 }
 EXPECTED_BRANCHES = [
     'oracle/smooth_descent/newton', 'oracle/smooth_descent/bfgs', 'oracle/smooth_descent/broyden',
@@ -530,4 +609,6 @@ EXPECTED_BRANCHES = [
     'reference/quasi_newton/bfgs', 'reference/quasi_newton/broyden-first',
     'reference/quasi_newton/broyden-second', 'reference/quasi_newton/cgnl',
     'reference/quasi_newton/hessinv_estimate', 'test/smooth solvers: start at the minimiser, validation',
+    'oracle/linesearch_direct/estimate_step', 'oracle/linesearch_direct/ascent-direction',
+    'oracle/linesearch_direct/descent-direction', 'oracle/linesearch_direct/refusals',
 ]
